@@ -222,9 +222,10 @@ func (vc *FnVC) nilCheckAddr(p ssa.Value, pos token.Pos) {
 func (vc *FnVC) unop(x *ssa.UnOp) {
 	switch x.Op {
 	case token.MUL:
-		if g, ok := x.X.(*ssa.Global); ok {
-			// package-level variable: read from its cell
-			_ = g
+		if g, ok := x.X.(*ssa.Global); ok && vc.w.readOnlyGlobal(g.Pkg.Pkg.Name(), g.Name()) {
+			// a package-level variable that is only assigned by its initialiser: every load yields the same value
+			vc.vals[x] = vc.globalConst(g.Pkg.Pkg.Name(), g.Name(), x.Type())
+			return
 		}
 		if a, ok := x.X.(*ssa.Alloc); ok {
 			if sv := vc.immutableCell(a); sv != nil {
@@ -701,7 +702,13 @@ func boolKeys(m map[string]string) map[string]bool {
 
 func (vc *FnVC) goInstr(x *ssa.Go) {
 	name := calleeShort(x.Common())
-	vc.applyCallGhosts(name, nil, nil, vc.cur)
+	var args []TV
+	for _, a := range x.Common().Args {
+		args = append(args, TV{t: vc.val(a), ty: a.Type()})
+	}
+	vc.callOrd[name] = vc.siteOrdinal(x, name)
+	vc.siteAsserts(name, vc.callOrd[name], vc.cur, args, x.Pos())
+	vc.cur = vc.applyCallGhosts(name, args, nil, vc.cur)
 }
 
 func (vc *FnVC) regionBoundary(what string) {
@@ -926,4 +933,11 @@ func (vc *FnVC) assumeNonNilElem(t Term, ty types.Type) {
 			vc.trustedUsed["nonnil "+key+" (trusted fact)"] = true
 		}
 	}
+}
+
+func (vc *FnVC) globalConst(pkg, name string, ty types.Type) Term {
+	n := sym("gval$" + pkg + "." + name)
+	vc.e.decl("gval:"+n, fmt.Sprintf("(declare-const %s %s)", n, vc.e.sortOf(ty)))
+	vc.trustedUsed["readonly "+pkg+"."+name+" (assigned only by its initialiser)"] = true
+	return n
 }
